@@ -883,7 +883,7 @@ impl Prop for C18 {
         "C18"
     }
     fn rule(&self) -> &'static str {
-        "generated unit tables (the C11 generator: 1-4 units, versions 2-5, both formats, address sizes 4/8, both byte orders, every attribute value kind, range/location lists, line programs, cross-unit references, expressions with addresses and entry references) and generated frame tables (.debug_frame v1/3/4 and .eh_frame, 1-2 CIEs with personality/LSDA in absolute, pc-relative and sized pointer encodings, 1-3 FDEs) are built twice: with constant addresses written through the plain writer, and with every address turned into symbol + addend written through a relocation-recording RelocateWriter. Writing side: applying the recorded relocations (symbols at fixed addresses, sections at 0, pc-relative records relative to their own position) must give sections byte-identical to the direct write; records must lie inside their section and not overlap. Reading side: the relocated fields of the recorded output are overwritten with garbage and the sections are parsed through RelocateReader with the recorded relocation table; a full dump (unit headers, every attribute raw and resolved, strings, lists, expressions, line programs and rows, CIE/FDE fields and unwind rows) must equal the dump of the pre-applied bytes through the plain reader, so any address or section offset that is parsed without going through the relocatable primitives shows up as a difference. Non-trivial = at least one symbol relocation and two section-offset relocations (units) or a pointer-encoded relocation (frames); distinct by choice string. Later additions: frame tables with LEB128 pointer encodings; a reading-side mode on assembler-built line programs with generated relocations on DW_LNE_set_address operands (incl. operands longer than the address size); the section named by the relocation of a macinfo / macro reference."
+        "generated unit tables (the C11 generator: 1-4 units, versions 2-5, both formats, address sizes 4/8, both byte orders, every attribute value kind, range/location lists, line programs, cross-unit references, expressions with addresses and entry references) and generated frame tables (.debug_frame v1/3/4 and .eh_frame, 1-2 CIEs with personality/LSDA in absolute, pc-relative and sized pointer encodings, 1-3 FDEs) are built twice: with constant addresses written through the plain writer, and with every address turned into symbol + addend written through a relocation-recording RelocateWriter. Writing side: applying the recorded relocations (symbols at fixed addresses, sections at 0, pc-relative records relative to their own position) must give sections byte-identical to the direct write; records must lie inside their section and not overlap. Reading side: the relocated fields of the recorded output are overwritten with garbage and the sections are parsed through RelocateReader with the recorded relocation table; a full dump (unit headers, every attribute raw and resolved, strings, lists, expressions, line programs and rows, CIE/FDE fields and unwind rows) must equal the dump of the pre-applied bytes through the plain reader, so any address or section offset that is parsed without going through the relocatable primitives shows up as a difference. Non-trivial = at least one symbol relocation and two section-offset relocations (units) or a pointer-encoded relocation (frames); distinct by choice string. Later additions: frame tables with LEB128 pointer encodings; a reading-side mode on assembler-built line programs with generated relocations on DW_LNE_set_address operands (incl. operands longer than the address size); the section named by the relocation of a macinfo / macro reference. Round-8 additions: a reading-side mode on assembler-built .debug_frame sections with generated relocations on the FDE's initial location and on DW_CFA_set_loc operands."
     }
     fn assumptions(&self) -> Vec<&'static str> {
         vec![
